@@ -1374,6 +1374,12 @@ class Data(BaseCartesianData):
         except ValueError:
             pass
 
+        if changed:
+            # Links internal to the dataset (derived components and coordinate
+            # links) still refer to the old ComponentID, so re-target them
+            for link in self.links:
+                link.replace_ids(old, new)
+
         if changed and self.hub is not None:
 
             # remove old component and broadcast the change
